@@ -180,6 +180,15 @@ def generate(seed, tier):
     for kind, N, r, d in [("revolve", 5, 2, 0), ("revolve", 260, 3, 0), ("disk", 6, 1, 0), ("disk", 270, 2, 0), ("hrevolve", 6, 1, 1), ("hrevolve", 150, 2, 2), ("periodic", 7, 1, 0), ("periodic", 280, 2, 0),
                           ("disk", 4, 1, 0), ("hrevolve", 5, 1, 1)]:
         g.rev(kind, N, r, d, COSTS[0], comp="stream." + kind + ".seq")
+    # heavy checkpoint traffic (well over a thousand accesses, counts of neighbouring stack positions that differ by one) with both kinds
+    # of unit and every kind of split: the ranking inside allocate_snapshots
+    for N, ram, disk, tr in [(546, 13, 18, "max"), (561, 15, 15, "max"), (597, 27, 5, "max"), (660, 6, 15, "rev"), (620, 10, 20, "max")]:
+        g.multistage(N, ram, disk, tr, comp="stream.multistage.heavy")
+    for _ in range(60 if thorough else 14):
+        N = rng.randint(500, 720)
+        units = rng.randint(16, 36)
+        ram = rng.randint(1, units - 1)
+        g.multistage(N, ram, units - ram, rng.choice(["max", "max", "rev"]), comp="stream.multistage.heavy")
     # very many adjoint calculations on one object (the classes that allow any number): each is an exact repeat of the first
     MANY = 2600 if thorough else 1150
     g.basic("mem", 2, MANY, comp="stream.basic.manypasses")
